@@ -227,7 +227,7 @@ def finish(report: Report, seed: int = 0) -> int:
     listed = [o for o in viol if o.key() in known]
     floor_fail = [(w, g, f) for (w, g, f) in report.floors if g < f]
 
-    evdir = VERIF_ROOT / "evidence"
+    evdir = Path(os.environ.get("USA_EVIDENCE_DIR", str(VERIF_ROOT / "evidence")))
     (evdir / "replay").mkdir(parents=True, exist_ok=True)
     for old in (evdir / "replay").glob(f"{prop}-*.json"):
         old.unlink()
@@ -360,7 +360,7 @@ def run_check(prop: str, fn: Callable[[Report, Repo], None], tier: str, seed: in
 
 
 def _write_error_evidence(report: Report, seed: int, msg: str) -> None:
-    evdir = VERIF_ROOT / "evidence"
+    evdir = Path(os.environ.get("USA_EVIDENCE_DIR", str(VERIF_ROOT / "evidence")))
     evdir.mkdir(parents=True, exist_ok=True)
     ev = {
         "property_id": report.prop,
